@@ -64,6 +64,7 @@ type scenario struct {
 	X *xferScn   `json:"x,omitempty"`
 	S *scriptScn `json:"s,omitempty"`
 	B *bufScn    `json:"b,omitempty"`
+	K *stressScn `json:"k,omitempty"`
 }
 
 type obsLine struct {
@@ -74,6 +75,7 @@ type obsLine struct {
 	X     *xferObs   `json:"x,omitempty"`
 	S     *scriptObs `json:"s,omitempty"`
 	B     *bufObs    `json:"b,omitempty"`
+	K     *stressObs `json:"k,omitempty"`
 }
 
 // result of one scenario as seen by the parent
@@ -81,12 +83,13 @@ type scnResult struct {
 	X     *xferObs
 	S     *scriptObs
 	B     *bufObs
+	K     *stressObs
 	Crash string // non-empty: the child died or hung while running this scenario
 	Skip  bool   // not executed: the child had met maxHungScenarios hanging scenarios before
 }
 
 func (r scnResult) hung() bool {
-	return (r.S != nil && r.S.Hung) || (r.X != nil && r.X.Hung) || (r.B != nil && r.B.Hung)
+	return (r.S != nil && r.S.Hung) || (r.X != nil && r.X.Hung) || (r.B != nil && r.B.Hung) || (r.K != nil && r.K.Hung)
 }
 
 // maxPayload reads maxPayloadSize from the sources the harness was built against.
@@ -170,12 +173,14 @@ func driveExec(c *hx.Ctx) error {
 				l.S = execScript(scns[i].S)
 			} else if scns[i].B != nil {
 				l.B = execBuf(scns[i].B)
+			} else if scns[i].K != nil {
+				l.K = execStress(scns[i].K)
 			}
 			done <- l
 		}(i)
 		select {
 		case l := <-done:
-			if (l.S != nil && l.S.Hung) || (l.X != nil && l.X.Hung) || (l.B != nil && l.B.Hung) {
+			if (l.S != nil && l.S.Hung) || (l.X != nil && l.X.Hung) || (l.B != nil && l.B.Hung) || (l.K != nil && l.K.Hung) {
 				hung++
 			}
 			emit(l)
@@ -345,7 +350,7 @@ func runChild(c *hx.Ctx, dir, in, outf string, n, start int, res []scnResult) (i
 				res[l.I] = scnResult{Skip: true}
 				last = l.I
 			default:
-				res[l.I] = scnResult{X: l.X, S: l.S, B: l.B}
+				res[l.I] = scnResult{X: l.X, S: l.S, B: l.B, K: l.K}
 				last = l.I
 			}
 		}
